@@ -24,7 +24,7 @@
          chk_C04 ifs h wakes (map obs_of (run_history ifs h)) = true ). *)
 From Coq Require Import List NArith Bool.
 From Mdns Require Import Res Bytes Rec Wire Txt Cache Browser C03Spec BrowserSpec BrowserKnown CacheProofs
-  CacheInvProofs BrowserStepProofs SpecTrackProofs BrowserProofs C05SafetyProofs C04StepProofs C04ScheduleProofs AouCasesProofs C04OrderProofs BrowserExamples.
+  CacheInvProofs BrowserStepProofs SpecTrackProofs BrowserProofs C05SafetyProofs C04StepProofs C04ScheduleProofs C04PendingProofs AouCasesProofs C04OrderProofs BrowserExamples.
 Import ListNotations.
 Open Scope N_scope.
 
@@ -81,6 +81,7 @@ Proof. exact followup_first. Qed.
 (* ... each try asks (instance, ANY) while no SRV is cached; tries 1 and 2 schedule the next
    try 500 ms later, try 3 schedules nothing and takes the instance out of pending_resolves ... *)
 Theorem C04_followup_step : forall s now inst n,
+  has_ptr_to (s_cache s) inst = true ->
   valid_instance_name inst = true -> bm_get inst (c_srv (s_cache s)) = None ->
   exec_resolve s now inst n =
   (if n <? 3
@@ -92,6 +93,7 @@ Proof. exact followup_step_any. Qed.
 
 (* ... so, timer-exact, exactly three questions at +500, +1000, +1500 and no more ... *)
 Theorem C04_followup_three_tries : forall s t inst,
+  has_ptr_to (s_cache s) inst = true ->
   valid_instance_name inst = true -> bm_get inst (c_srv (s_cache s)) = None ->
   let s1 := fst (exec_resolve s (t + 500) inst 1) in
   let s2 := fst (exec_resolve s1 (t + 1000) inst 2) in
@@ -106,6 +108,7 @@ Proof. exact followup_three_tries. Qed.
 
 (* ... once the SRV is cached the remaining tries ask (host, A), (host, AAAA) ... *)
 Theorem C04_followup_after_srv : forall s now inst n recs e,
+  has_ptr_to (s_cache s) inst = true ->
   valid_instance_name inst = true -> bm_get inst (c_srv (s_cache s)) = Some recs ->
   find (fun e => match get_addr (s_cache s) (srv_host e) with None => true | Some _ => false end) recs = Some e ->
   snd (exec_resolve s now inst n) = [OQuery [(srv_host e, TY_A); (srv_host e, TY_AAAA)]]
@@ -120,6 +123,14 @@ Theorem C04_followup_ends : forall s now inst n recs,
   exec_resolve s now inst n = (forget_pending s inst, []).
 Proof. exact followup_ends. Qed.
 
+(* fix 48ec5c0: a try asks only while some cached PTR record (any owner, expired or not) points to
+   the instance; after stop_browse or the withdrawal / expiry of its PTR the try asks nothing, the
+   chain ends and the instance is no longer pending (the hypothesis has_ptr_to of the three
+   theorems above) *)
+Theorem C04_followup_stops_without_ptr : forall s now inst n,
+  has_ptr_to (s_cache s) inst = false -> exec_resolve s now inst n = (forget_pending s inst, []).
+Proof. exact followup_stops_without_ptr. Qed.
+
 (* While its chain runs an instance gets no second chain; when the chain is over (third try
    done, or nothing left to ask) the instance is no longer pending, so a later ServiceFound of
    it starts a new chain (C04_followup_first applies again) - the repaired stale-pending defect. *)
@@ -128,7 +139,7 @@ Theorem C04_followup_not_doubled : forall s now inst,
 Proof. exact followup_not_restarted. Qed.
 
 Theorem C04_followup_over_allows_new_round : forall s now inst n,
-  (n <? 3) = false \/ fst (query_unresolved (s_cache s) inst) = false ->
+  (n <? 3) = false \/ has_ptr_to (s_cache s) inst = false \/ fst (query_unresolved (s_cache s) inst) = false ->
   mem inst (s_pending (fst (exec_resolve s now inst n))) = false.
 Proof. exact followup_over_allows_new_round. Qed.
 
@@ -196,6 +207,28 @@ Theorem C04_followup_schedule_invariant : forall ifs h,
                    | RVerify _ _ => True
                    end) (s_retrans (model_after ifs init_st h)).
 Proof. exact followup_schedule_invariant. Qed.
+
+(* Round 7, all histories (no hypothesis at all): an instance that is in pending_resolves has a
+   follow-up (Resolve) retransmission queued.  add_pending_resolve starts a chain only for an
+   instance that is NOT pending, so this is what guarantees that a found, unresolved instance
+   keeps getting its follow-up questions; the seeded change C04-m6 (stop_browse cancels the queued
+   Resolve commands and leaves the instances pending) breaks exactly this. *)
+Theorem C04_pending_has_followup_queued : forall ifs h i,
+  mem i (s_pending (model_after ifs init_st h)) = true ->
+  exists t n, In (t, RResolve i n) (s_retrans (model_after ifs init_st h)).
+Proof. exact pending_has_followup_queued. Qed.
+
+(* ... and with the schedule invariant it is try 1..3, due within the next 500 ms *)
+Theorem C04_pending_followup_within_500 : forall ifs h i,
+  wf_history h = true -> h <> [] -> mem i (s_pending (model_after ifs init_st h)) = true ->
+  exists t n, In (t, RResolve i n) (s_retrans (model_after ifs init_st h))
+              /\ last_now h < t /\ t <= last_now h + 500 /\ 1 <= n /\ n <= 3.
+Proof. exact pending_followup_within_500. Qed.
+
+Example C04_pending_example :
+  mem n_inst (s_pending (model_after ex_ifs init_st (firstn 3 ex_follow))) = true
+  /\ mem n_inst (s_pending (model_after ex_ifs init_st ex_follow)) = false.
+Proof. split; vm_compute; reflexivity. Qed.
 
 (* non-vacuity: PTR only; after the first try (iteration at +600) the second one is scheduled *)
 Example C04_followup_schedule_example :
@@ -310,6 +343,7 @@ Print Assumptions C04_followup_step.
 Print Assumptions C04_followup_three_tries.
 Print Assumptions C04_followup_after_srv.
 Print Assumptions C04_followup_ends.
+Print Assumptions C04_followup_stops_without_ptr.
 Print Assumptions C04_followup_not_doubled.
 Print Assumptions C04_followup_over_allows_new_round.
 Print Assumptions C04_spec_cache_is_model_cache.
@@ -318,6 +352,9 @@ Print Assumptions C04_at_most_one_resolved.
 Print Assumptions C04_one_resolved_example.
 Print Assumptions C04_followup_schedule_invariant.
 Print Assumptions C04_followup_schedule_example.
+Print Assumptions C04_pending_has_followup_queued.
+Print Assumptions C04_pending_followup_within_500.
+Print Assumptions C04_pending_example.
 Print Assumptions C04_resolved_only_after_found_partial.
 Print Assumptions C04_iteration_resolved_only_after_found.
 Print Assumptions C04_known_browse_expiring_witness.
